@@ -48,3 +48,25 @@ Proof. exact ServerProps.C18_server_monitor. Qed.
 
 Print Assumptions C18_client_monitor.
 Print Assumptions C18_server_monitor.
+
+(* ------------------------------------------------------------------------------------------ *)
+(* Composition of the client model and the server model (coq/Chain*.v); names are qualified. *)
+From TarpcV Require Client Server Chain ChainSpec ChainCtx ChainProofs.
+(* multi-hop clause, on the composition, for every depth and every op list: the request yielded
+   to a handler on ANY node carries the trace id and the sampling decision (2*trace_id+sampled)
+   of a head call with the same body *)
+Theorem C18_chain_trace : forall (d : nat) (ops : list Chain.cop),
+  Chain.c18c_ok d ops (fst (Chain.run d ops)) = true.
+Proof. exact ChainCtx.chain_trace. Qed.
+
+Example C18_chain_nonvacuous :
+  let ops := [Chain.HCall 1000 7 true 5; Chain.HCall 500 9 false 6; Chain.SettleAll] in
+  filter (fun e => match e with Chain.KYield _ _ _ _ _ _ => true | _ => false end)
+         (nth 2 (fst (Chain.run 2 ops)) []) =
+    [Chain.KYield 0 0 0 1000 15 5; Chain.KYield 1 0 0 1000 15 5;
+     Chain.KYield 0 1 1 500 18 6; Chain.KYield 1 1 1 500 18 6]
+  /\ Chain.c18c_ok 2 ops (fst (Chain.run 2 ops)) = true
+  /\ Chain.c18c_ok 2 ops [[]; []; [Chain.KYield 1 0 0 1000 14 5]] = false.
+Proof. vm_compute. repeat split; reflexivity. Qed.
+
+Print Assumptions C18_chain_trace.
